@@ -27,6 +27,8 @@ type Case struct {
 	Name   string       `json:"name"`
 	Spec   string       `json:"spec"`
 	Config regen.Config `json:"config"`
+	// Tame, if set, is the same document with every author-chosen name replaced by a fresh tame one.
+	Tame string `json:"tame,omitempty"`
 }
 
 var allFeatures = []string{"paths/client", "paths/server", "webhooks/client", "webhooks/server", "client/security/reentrant",
@@ -107,6 +109,61 @@ func classifyCompile(output string) (string, string) {
 	return "compile:" + norm, first
 }
 
+// operationIDsCollide: two operationIds are equal after dropping everything but letters and digits
+// and ignoring case (ogen's name normalisation maps them to one Go name).
+func operationIDsCollide(spec string) bool {
+	var doc struct {
+		Paths map[string]map[string]struct {
+			OperationID string `json:"operationId"`
+		} `json:"paths"`
+	}
+	if jsonUnmarshal([]byte(spec), &doc) != nil {
+		return false
+	}
+	seen := map[string]bool{}
+	for _, item := range doc.Paths {
+		for _, op := range item {
+			var b strings.Builder
+			for _, r := range strings.ToLower(op.OperationID) {
+				if r >= 'a' && r <= 'z' || r >= '0' && r <= '9' || r > 0x7f {
+					b.WriteRune(r)
+				}
+			}
+			if b.Len() == 0 {
+				continue
+			}
+			if seen[b.String()] {
+				return true
+			}
+			seen[b.String()] = true
+		}
+	}
+	return false
+}
+
+// tameCopyBuilds generates and builds the tame copy of a case on its own.
+func tameCopyBuilds(c Case) bool {
+	b, err := regen.NewBatch("tame")
+	if err != nil {
+		return false
+	}
+	defer b.Remove()
+	if out := b.Add("t0", []byte(c.Tame), c.Config, nil); out.Class != regen.OK {
+		return false
+	}
+	res := b.Build()
+	return len(res.OK) == 1
+}
+
+func hasControl(s string) bool {
+	for _, r := range s {
+		if r < 0x20 || r == 0x7f {
+			return true
+		}
+	}
+	return false
+}
+
 // nameHasLineBreak: some name a spec author writes (operationId, parameter name, property name,
 // component key) contains CR or LF; the templates copy names into // comments.
 func nameHasLineBreak(spec string) bool {
@@ -120,10 +177,10 @@ func nameHasLineBreak(spec string) bool {
 		switch x := v.(type) {
 		case map[string]any:
 			for k, e := range x {
-				if (key == "properties" || key == "schemas" || key == "headers") && strings.ContainsAny(k, "\r\n") {
+				if (key == "properties" || key == "schemas" || key == "headers") && hasControl(k) {
 					found = true
 				}
-				if s, ok := e.(string); ok && (k == "operationId" || k == "name") && strings.ContainsAny(s, "\r\n") {
+				if s, ok := e.(string); ok && (k == "operationId" || k == "name") && hasControl(s) {
 					found = true
 				}
 				walk(e, k)
@@ -183,7 +240,7 @@ func runItems(u *vk.Unit, tag string, items []Case, label func(Case) string) {
 		default:
 			cl := "generator-" + out.Class
 			if out.Class == regen.GoFormat && nameHasLineBreak(c.Spec) {
-				cl = "go-format-line-break-in-name"
+				cl = "go-format-control-character-in-name"
 			}
 			u.Report(vk.F(cl, "%s: generation ends with %s: %s", c.Name, out.Class, tail(out.Err, 700)), c)
 		}
@@ -206,6 +263,15 @@ func runItems(u *vk.Unit, tag string, items []Case, label func(Case) string) {
 			continue
 		}
 		cl, first := classifyCompile(e)
+		if strings.HasSuffix(cl, "redeclared in this block") && operationIDsCollide(c.Spec) {
+			cl = "operation-names-collide-after-normalisation"
+		}
+		if strings.HasPrefix(cl, "compile:") && c.Tame != "" && tameCopyBuilds(c) {
+			// counterfactual: the same document with tame, unique names generates and compiles, so the
+			// failure comes from the names alone (spec-derived identifiers are not conflict-checked
+			// against each other and against what the templates emit)
+			cl = "spec-names-not-conflict-checked"
+		}
 		u.Label("compile-failed")
 		u.Report(vk.F(cl, "%s (config %+v): generated package does not compile: %s", c.Name, c.Config, first), c)
 	}
@@ -341,7 +407,7 @@ func drawHostile(avoidFixed func() bool) func(t *rapid.T) hostileBatch {
 			if avoid {
 				name = "hostile-steered"
 			}
-			hb.Items = append(hb.Items, Case{Name: name, Spec: string(doc.Render()), Config: cfg})
+			hb.Items = append(hb.Items, Case{Name: name, Spec: string(doc.Render()), Config: cfg, Tame: string(specgen.TameCopy(doc).Render())})
 		}
 		return hb
 	}
